@@ -421,6 +421,7 @@ def rand_v2(rng, nexp, nbits_of_exp, w, tier, min_qpd=0, odd_shots=False):
                      for _ in range(shots)])
         obs_bits.append(nb)
         qpd_bits.append(nq)
+        w.count("v2.pub_has_repeated_shot", len({tuple(x) for x in pubs[-1]}) < len(pubs[-1]))
         w.count("v2.obs_bits", nb)
         w.count("v2.qpd_bits", nq)
         w.count("v2.shots", shots)
